@@ -8,8 +8,8 @@ C05 — model of the code as it is in
 Core Lean only.
 
 Conventions: bytes are `List Nat`; a stream opened for reading is the pair (file : Bytes, pos : Nat), `read n` returns
-`(file.drop pos).take n` and advances by the number of bytes returned (io.BytesIO). The reader is modelled for
-`keepGoing=False, pad_modulo=0` (the defaults of `File.FileRead`). A Python exception is `Except Err`; the state after an
+`(file.drop pos).take n` and advances by the number of bytes returned (io.BytesIO). The reader takes its constructor
+arguments `keepGoing, pad_modulo, pad_non_null` as a `Cfg` (`Cfg.plain` = the defaults of `File.FileRead`). A Python exception is `Except Err`; the state after an
 exception is not modelled, except for the entry guard "already at EOF" which raises before touching anything
 (`run` continues after that one and halts after any other).
 -/
@@ -222,34 +222,49 @@ def Tif.init (f : Bytes) : Tif :=
 /-- `TifMarkerRead.reset` -/
 def Tif.reset (t : Tif) : Tif := { t with tifType := 0, tifBack := 0, tifNext := 0, previousTell := none }
 
+/-- constructor arguments of `PhysRecRead` / `File.FileRead`: `keepGoing`, `pad_modulo`, `pad_non_null` -/
+structure Cfg where
+  keepGoing : Bool
+  padModulo : Nat
+  padNonNull : Bool
+  deriving Repr, DecidableEq
+
+/-- `File.FileRead(f, id)`: keepGoing False, no padding -/
+def Cfg.plain : Cfg := ⟨false, 0, false⟩
+
 /-- outcome of reading a marker: fine / RawStream EOF (caught by `_readHead`) / ExceptionTifMarker -/
 inductive TR where
   | ok (t : Tif) (pos : Nat) (r : Option Nat)
   | rawEof (t : Tif) (pos : Nat)
   | err
 
-/-- `TifMarkerRead._read` (allowPrPadding = False, raiseOnError = True) -/
-def tifRead1 (f : Bytes) (t : Tif) (pos : Nat) : TR :=
+/-- `TifMarkerRead._read` (allowPrPadding = keepGoing, raiseOnError = True): when the previous marker's `next` is
+ahead of the stream and padding is allowed the stream is moved there, any other mismatch raises -/
+def tifRead1 (cfg : Cfg) (f : Bytes) (t : Tif) (pos : Nat) : TR :=
   if t.hasTif then
-    let retTell := pos
-    if t.hasPrevious ∧ t.tifNext ≠ retTell then .err
-    else
-      let b := rdBytes f pos 12
+    let ret : Option Nat :=
+      if t.hasPrevious ∧ t.tifNext ≠ pos then
+        (if cfg.keepGoing ∧ t.tifNext > pos then some t.tifNext else none)
+      else some pos
+    match ret with
+    | none => .err
+    | some retTell =>
+      let b := rdBytes f retTell 12
       match unpack3 t.isReversed b with
-      | none => .rawEof t (pos + b.length)
+      | none => .rawEof t (retTell + b.length)
       | some (ty, bk, nx) =>
         let t := { t with tifType := ty, tifBack := bk, tifNext := nx }
         if t.hasPrevious ∧ some t.tifBack ≠ t.previousTell then .err
-        else .ok { t with previousTell := some retTell } (pos + 12) (some retTell)
+        else .ok { t with previousTell := some retTell } (retTell + 12) (some retTell)
   else .ok t pos none
 
 /-- `TifMarkerRead.read`: an EOF marker (type 1) is followed by its duplicate -/
-def tifRead (f : Bytes) (t : Tif) (pos : Nat) : TR :=
+def tifRead (cfg : Cfg) (f : Bytes) (t : Tif) (pos : Nat) : TR :=
   if t.hasTif then
-    match tifRead1 f t pos with
+    match tifRead1 cfg f t pos with
     | .ok t1 p1 r =>
       if t1.tifType = 1 then
-        match tifRead1 f t1 p1 with
+        match tifRead1 cfg f t1 p1 with
         | .ok t2 p2 _ => .ok t2 p2 r
         | other => other
       else .ok t1 p1 r
@@ -277,9 +292,9 @@ def Rd.hasSuccessor (s : Rd) : Bool := bitSet s.prAttr 0
 def Rd.hasPredecessor (s : Rd) : Bool := bitSet s.prAttr 1
 def Rd.hasRecordNumber (s : Rd) : Bool := bitSet s.prAttr 9
 def Rd.hasFileNumber (s : Rd) : Bool := bitSet s.prAttr 10
-/-- `_hasChecksum` raises when the "undefined" bit 13 is set (keepGoing False) -/
-def Rd.hasChecksum (s : Rd) : Except Err Bool :=
-  if bitSet s.prAttr 13 then .error .physRec else .ok (bitSet s.prAttr 12)
+/-- `_hasChecksum` raises when the "undefined" bit 13 is set and not keepGoing -/
+def Rd.hasChecksum (s : Rd) (kg : Bool) : Except Err Bool :=
+  if bitSet s.prAttr 13 ∧ ¬ kg then .error .physRec else .ok (bitSet s.prAttr 12)
 
 /-- `PhysRecRead.__init__` -/
 def Rd.new (f : Bytes) : Rd :=
@@ -293,7 +308,7 @@ def readU16 (f : Bytes) (pos : Nat) : Option Nat × Nat :=
   | l => (none, pos + l.length)
 
 /-- second half of `_readHead`: from `self.prLen = self.stream.readAndUnpack(PR_PRH_LEN_FORMAT)[0]` on -/
-def readHeadBody (f : Bytes) (s : Rd) : Except Err Rd :=
+def readHeadBody (cfg : Cfg) (f : Bytes) (s : Rd) : Except Err Rd :=
   match readU16 f s.pos with
   | (none, p) => .ok { s with pos := p, isEOF := true }
   | (some len, p) =>
@@ -302,13 +317,13 @@ def readHeadBody (f : Bytes) (s : Rd) : Except Err Rd :=
     | (none, p) => .ok { s with pos := p, isEOF := true }
     | (some attr, p) =>
       let s := { s with prAttr := attr, pos := p }
-      if bitSet s.prAttr 14 then .error .physRec else
+      if bitSet s.prAttr 14 ∧ ¬ cfg.keepGoing then .error .physRec else
       let s := if s.isLrStart then { s with startOfLr := s.startPrPos } else s
       let s := { s with ldIndex := 0 }
       let ld : Int := (s.prLen : Int) - 4
       let ld := if s.hasRecordNumber then ld - 2 else ld
       let ld := if s.hasFileNumber then ld - 2 else ld
-      match s.hasChecksum with
+      match s.hasChecksum cfg.keepGoing with
       | .error e => .error e
       | .ok ck =>
         let ld := if ck then ld - 2 else ld
@@ -318,16 +333,31 @@ def readHeadBody (f : Bytes) (s : Rd) : Except Err Rd :=
         .ok s
 
 /-- `_readHead` -/
-def readHead (f : Bytes) (s : Rd) : Except Err Rd :=
+def readHead (cfg : Cfg) (f : Bytes) (s : Rd) : Except Err Rd :=
   let s := if ¬ s.hasSuccessor then { s with ldTell := 0, isLrStart := true } else { s with isLrStart := false }
   let s := { s with startPrPos := s.pos }
-  match tifRead f s.tif s.pos with
+  match tifRead cfg f s.tif s.pos with
   | .err => .error .tif
   | .rawEof t p => .ok { s with tif := t, pos := p, isEOF := true }
-  | .ok t p r => readHeadBody f { s with tif := t, pos := p, startPrPos := r.getD s.startPrPos }
+  | .ok t p r => readHeadBody cfg f { s with tif := t, pos := p, startPrPos := r.getD s.startPrPos }
 
-/-- `_readTail` (pad_modulo = 0: `_consume_padding` does nothing) -/
-def readTail (f : Bytes) (s : Rd) : Except Err Rd :=
+/-- the `for i in range(pad_len)` loop of `_consume_padding`: `tell` is the position to restore, `cur` the stream -/
+def padLoop (cfg : Cfg) (f : Bytes) (tell : Nat) : Nat → Nat → Nat
+  | 0, cur => cur
+  | n + 1, cur =>
+    match rdBytes f cur 1 with
+    | [b] => if ¬ cfg.padNonNull ∧ b ≠ 0 then tell else padLoop cfg f tell n (cur + 1)
+    | _ => tell
+
+/-- `_consume_padding`: the stream position afterwards -/
+def consumePadding (cfg : Cfg) (f : Bytes) (pos : Nat) : Nat :=
+  if cfg.padModulo ≠ 0 then
+    if pos % cfg.padModulo ≠ 0 then padLoop cfg f pos (cfg.padModulo - pos % cfg.padModulo) pos
+    else pos
+  else pos
+
+/-- `_readTail` -/
+def readTail (cfg : Cfg) (f : Bytes) (s : Rd) : Except Err Rd :=
   let s := { s with mustReadHead := true }
   if s.isEOF then .error .eof else
   let r1 := if s.hasRecordNumber then readU16 f s.pos else (some 0, s.pos)
@@ -340,13 +370,13 @@ def readTail (f : Bytes) (s : Rd) : Except Err Rd :=
     | (none, _) => .error .eof
     | (some _, p) =>
       let s := { s with pos := p }
-      match s.hasChecksum with
+      match s.hasChecksum cfg.keepGoing with
       | .error e => .error e
       | .ok ck =>
         let r3 := if ck then readU16 f s.pos else (some 0, s.pos)
         match r3 with
         | (none, _) => .error .eof
-        | (some _, p) => .ok { s with pos := p }
+        | (some _, p) => .ok { s with pos := consumePadding cfg f p }
 
 /-- accumulator of `__readOrSkip`: logical data read, or number of bytes skipped -/
 inductive Acc where
@@ -365,23 +395,23 @@ def ldWithin (f : Bytes) (s : Rd) (acc : Acc) (size : Nat) : Except Err (Rd × A
   | .cnt n => .ok ({ s with pos := s.pos + size }, .cnt (n + size))
 
 /-- `while 1:` loop of `__readOrSkip` (theSize < 0) -/
-def allLoop (f : Bytes) : Nat → Rd → Acc → Except Err (Rd × Acc)
+def allLoop (cfg : Cfg) (f : Bytes) : Nat → Rd → Acc → Except Err (Rd × Acc)
   | 0, _, _ => .error .fuel
   | fuel + 1, s, acc =>
     match ldWithin f s acc (s.ldLen - s.ldIndex) with
     | .error e => .error e
     | .ok (s, acc) =>
-      match readTail f s with
+      match readTail cfg f s with
       | .error e => .error e
       | .ok s =>
         if s.hasSuccessor then
-          match readHead f s with
+          match readHead cfg f s with
           | .error e => .error e
-          | .ok s => allLoop f fuel s acc
+          | .ok s => allLoop cfg f fuel s acc
         else .ok (s, acc)
 
 /-- `while bytesRead < theSize:` loop of `__readOrSkip` -/
-def sizedLoop (f : Bytes) : Nat → Rd → Acc → Nat → Nat → Except Err (Rd × Acc)
+def sizedLoop (cfg : Cfg) (f : Bytes) : Nat → Rd → Acc → Nat → Nat → Except Err (Rd × Acc)
   | 0, _, _, _, _ => .error .fuel
   | fuel + 1, s, acc, bytesRead, theSize =>
     if bytesRead < theSize then
@@ -393,68 +423,68 @@ def sizedLoop (f : Bytes) : Nat → Rd → Acc → Nat → Nat → Except Err (R
         | .error e => .error e
         | .ok (s, acc) =>
           if s.hasSuccessor then
-            match readTail f s with
+            match readTail cfg f s with
             | .error e => .error e
             | .ok s =>
-              match readHead f s with
+              match readHead cfg f s with
               | .error e => .error e
-              | .ok s => sizedLoop f fuel s acc bytesRead theSize
+              | .ok s => sizedLoop cfg f fuel s acc bytesRead theSize
           else .ok (s, acc)
     else .ok (s, acc)
 
 /-- `__readOrSkip` -/
-def readOrSkip (f : Bytes) (s : Rd) (acc : Acc) (theSize : Int) : Except Err (Rd × Acc) :=
+def readOrSkip (cfg : Cfg) (f : Bytes) (s : Rd) (acc : Acc) (theSize : Int) : Except Err (Rd × Acc) :=
   if s.isEOF then .error .eof else
-  if theSize < 0 then allLoop f (f.length + 1) s acc
-  else sizedLoop f (f.length + 1) s acc 0 theSize.toNat
+  if theSize < 0 then allLoop cfg f (f.length + 1) s acc
+  else sizedLoop cfg f (f.length + 1) s acc 0 theSize.toNat
 
 def Rd.hasLd (s : Rd) : Bool := s.ldLen > s.ldIndex || s.hasSuccessor
 
 /-- `_readOrSkipPreamble` -/
-def preamble (f : Bytes) (s : Rd) : Except Err (Rd × Bool) :=
+def preamble (cfg : Cfg) (f : Bytes) (s : Rd) : Except Err (Rd × Bool) :=
   if s.isEOF then .error .eof else
-  match (if s.mustReadHead then readHead f s else .ok s) with
+  match (if s.mustReadHead then readHead cfg f s else .ok s) with
   | .error e => .error e
   | .ok s =>
     if ¬ s.hasLd then
       if ¬ s.isEOF then
-        match readTail f s with
+        match readTail cfg f s with
         | .error e => .error e
         | .ok s => .ok (s, false)
       else .ok (s, false)
     else .ok (s, true)
 
 /-- `readLrBytes(theSize)`: `none` = Python `None` -/
-def readLrBytes (f : Bytes) (s : Rd) (theSize : Int) : Except Err (Rd × Option Bytes) :=
-  match preamble f s with
+def readLrBytes (cfg : Cfg) (f : Bytes) (s : Rd) (theSize : Int) : Except Err (Rd × Option Bytes) :=
+  match preamble cfg f s with
   | .error e => .error e
   | .ok (s, false) => .ok (s, none)
   | .ok (s, true) =>
-    match readOrSkip f s (.data []) theSize with
+    match readOrSkip cfg f s (.data []) theSize with
     | .error e => .error e
     | .ok (s, .data b) => .ok (s, some b)
     | .ok (s, .cnt _) => .ok (s, some [])
 
 /-- `skipLrBytes(theSize)` -/
-def skipLrBytes (f : Bytes) (s : Rd) (theSize : Int) : Except Err (Rd × Nat) :=
-  match preamble f s with
+def skipLrBytes (cfg : Cfg) (f : Bytes) (s : Rd) (theSize : Int) : Except Err (Rd × Nat) :=
+  match preamble cfg f s with
   | .error e => .error e
   | .ok (s, false) => .ok (s, 0)
   | .ok (s, true) =>
-    match readOrSkip f s (.cnt 0) theSize with
+    match readOrSkip cfg f s (.cnt 0) theSize with
     | .error e => .error e
     | .ok (s, .cnt n) => .ok (s, n)
     | .ok (s, .data _) => .ok (s, 0)
 
 /-- `skipToNextLr` -/
-def skipToNextLr (f : Bytes) (s : Rd) : Except Err (Rd × Nat) :=
-  match skipLrBytes f s (-1) with
+def skipToNextLr (cfg : Cfg) (f : Bytes) (s : Rd) : Except Err (Rd × Nat) :=
+  match skipLrBytes cfg f s (-1) with
   | .error e => .error e
   | .ok (s, r) =>
-    match (if r ≠ 0 ∧ ¬ s.mustReadHead then readTail f s else .ok s) with
+    match (if r ≠ 0 ∧ ¬ s.mustReadHead then readTail cfg f s else .ok s) with
     | .error e => .error e
     | .ok s =>
-      match readHead f s with
+      match readHead cfg f s with
       | .error e => .error e
       | .ok s => .ok (s, r)
 
@@ -476,27 +506,27 @@ def errReply (s : Rd) (e : Err) : Reply :=
   if s.isEOF ∧ e = .eof then .eofError else .failed
 
 /-- one operation: new state (`none` = halted after an exception other than the EOF entry guard) and the reply -/
-def step (f : Bytes) (s : Rd) : COp → Option Rd × Reply
+def step (cfg : Cfg) (f : Bytes) (s : Rd) : COp → Option Rd × Reply
   | .tell => (some s, .pos (tellLr s))
   | .seek o => let (s', p) := seekLr s o; (some s', .pos p)
   | .read n =>
-    match readLrBytes f s n with
+    match readLrBytes cfg f s n with
     | .ok (s', some b) => (some s', .bytes b)
     | .ok (s', none) => (some s', .none)
     | .error e => (if s.isEOF then some s else none, errReply s e)
   | .skip n =>
-    match skipLrBytes f s n with
+    match skipLrBytes cfg f s n with
     | .ok (s', c) => (some s', .count c)
     | .error e => (if s.isEOF then some s else none, errReply s e)
   | .next =>
-    match skipToNextLr f s with
+    match skipToNextLr cfg f s with
     | .ok (s', c) => (some s', .count c)
     | .error e => (if s.isEOF then some s else none, errReply s e)
 
-def run (f : Bytes) : Option Rd → List COp → List Reply
+def run (cfg : Cfg) (f : Bytes) : Option Rd → List COp → List Reply
   | _, [] => []
-  | none, _ :: ops => .halted :: run f none ops
-  | some s, op :: ops => let (s', r) := step f s op; r :: run f s' ops
+  | none, _ :: ops => .halted :: run cfg f none ops
+  | some s, op :: ops => let (s', r) := step cfg f s op; r :: run cfg f s' ops
 
 /-- abstract operation ↦ concrete operation: a seek goes to the position of the record -/
 def concOp (L : Layout) (rs : List Bytes) : Op → COp
@@ -505,6 +535,61 @@ def concOp (L : Layout) (rs : List Bytes) : Op → COp
   | .next => .next
   | .tell => .tell
   | .seek i => .seek (tellOf L rs i)
+
+/-! ## File.py: choosing the padding settings by scanning -/
+
+/-- one iteration of `genPr` after a successful `_readHead`: `self.skipLrBytes(self.ldLen)`, `self._readTail()` -/
+def genPrBody (cfg : Cfg) (f : Bytes) (s : Rd) : Except Err Rd :=
+  match skipLrBytes cfg f s s.ldLen with
+  | .error e => .error e
+  | .ok (s, _) => readTail cfg f s
+
+/-- `scan_file_no_output`: the loop `for _ in phys_rec.genPr(): pr_count += 1; if pr_limit and pr_count >= pr_limit: break`
+with `genPr` (`_readHead`, stop at EOF, body, yield) inlined; fuel = file length + 1 -/
+def genPrLoop (cfg : Cfg) (f : Bytes) : Nat → Rd → Nat → Nat → Except Err Nat
+  | 0, _, _, _ => .error .fuel
+  | fuel + 1, s, cnt, limit =>
+    if s.isEOF then .ok cnt else
+    match readHead cfg f s with
+    | .error e => .error e
+    | .ok s =>
+      if s.isEOF then .ok cnt else
+      match genPrBody cfg f s with
+      | .error e => .error e
+      | .ok s =>
+        if limit ≠ 0 ∧ cnt + 1 ≥ limit then .ok (cnt + 1) else genPrLoop cfg f fuel s (cnt + 1) limit
+
+/-- `scan_file_no_output(file, keep_going, pad_modulo, pad_non_null, pr_limit)`: number of PRs, 0 after
+ExceptionPhysRec / ExceptionTifMarker -/
+def scanFile (cfg : Cfg) (f : Bytes) (limit : Nat) : Nat :=
+  match genPrLoop cfg f (f.length + 1) (seekLr (Rd.new f) 0).1 0 limit with
+  | .ok n => n
+  | .error _ => 0
+
+/-- the order in which `scan_file_with_different_padding` fills its dict -/
+def padOptions : List (Nat × Bool) := [(0, false), (0, true), (2, false), (2, true), (4, false), (4, true)]
+
+/-- `scan_file_with_different_padding(file, keep_going, pr_limit)` as the list of dict items in insertion order -/
+def scanAll (kg : Bool) (f : Bytes) (limit : Nat) : List ((Nat × Bool) × Nat) :=
+  padOptions.map (fun o => (o, scanFile ⟨kg, o.1, o.2⟩ f limit))
+
+/-- `ret_padding_options_with_max_records`: the keys with the maximal count, in dict order -/
+def retMax (l : List ((Nat × Bool) × Nat)) : List (Nat × Bool) :=
+  let mx := l.foldl (fun a x => max a x.2) 0
+  (l.filter (fun x => x.2 = mx)).map (·.1)
+
+/-- the end of `best_physical_record_pad_settings`: `best_pad_opts[0]` if there is one and it counted a record -/
+def pickBest (c : List ((Nat × Bool) × Nat)) : Option (Nat × Bool) :=
+  match retMax c with
+  | [] => none
+  | o :: _ => if (c.lookup o).getD 0 > 0 then some o else none
+
+/-- `best_physical_record_pad_settings(file, pr_limit)` (the scan runs with keep_going=True) -/
+def bestPad (f : Bytes) (limit : Nat) : Option (Nat × Bool) := pickBest (scanAll true f limit)
+
+/-- `file_read_with_best_physical_record_pad_settings`: the constructor arguments of the `FileRead` it returns -/
+def bestReaderCfg (f : Bytes) (limit : Nat) : Option Cfg :=
+  (bestPad f limit).map (fun o => ⟨true, o.1, o.2⟩)
 
 /-! ## DeTif.strip_tif -/
 
